@@ -204,6 +204,19 @@ fn c13_stfu_decode_total() {
 	decode_total_fixed::<Stfu, 36>(33, stfu_valid);
 }
 
+/// stfu at its exact length only: accepted iff the `initiator` byte is 0 or 1 (out-of-range values
+/// are rejected, not coerced); a cheap strict-rejection check that runs in the quick tier.
+#[kani::proof]
+#[kani::unwind(35)]
+fn c13_stfu_strict_bool() {
+	let buf: [u8; 36] = kani::any();
+	let o = decode_total_at::<Stfu, 36>(buf, 33, 33);
+	assert!((o == Outcome::Accepted) == (buf[32] <= 1));
+	assert!(o == Outcome::Accepted || o == Outcome::Invalid);
+	kani::cover!(o == Outcome::Accepted, "accepted");
+	kani::cover!(o == Outcome::Invalid, "rejected out-of-range bool");
+}
+
 /// gossip_timestamp_filter: chain_hash(32) first_timestamp(4) timestamp_range(4).
 #[kani::proof]
 #[kani::unwind(34)]
